@@ -14,6 +14,8 @@ CLAIMED = {
              note="exact reals; n <= 3 sites (per-site algebra is site independent); exp(-i mu dt) an arbitrary unit complex; opaque covariant Laplacian action; float rounding near disc = 0 and overflow outside", ref="5/C02"),
  "C06": dict(text="Pinned rows are identity rows after build and after every in-place refresh, all other rows equal the unpinned operator, pinning disabled gives the unpinned operator; one inductive step of the real TDGLSolver.__init__/update/adaptive_euler_step/solve_for_psi_squared from an arbitrary state keeps psi = v on every terminal site for v = 0, symbolic |v| <= 1, and leaves terminal sites on the generic update for v = None.",
              note="real device meshes bar2/bar3 with symbolic weights; one inductive step; Poisson solve opaque; exact reals", ref="5/C06"),
+ "C12": dict(text="One inductive step of the real TDGLSolver.update/adaptive_euler_step from an arbitrary solver state (arbitrary proposed dt in (0, dt_max], arbitrary history of max|d|psi|^2|, symbolic dt_init <= dt_max and multiplier) for steps inside, at the edge of and after the window and every scripted number of kernel refusals: used dt = proposed * mult^k, 0 < dt <= dt_max, next proposal = min((dt + dt_init/delta)/2, dt_max) with the 1e-10 floor, retry exhaustion raises and is never answered, adaptivity off keeps dt_init; plus a multi-step run in the thorough tier.",
+             note="psi-kernel and Poisson solve opaque (arbitrary |psi'|^2, scripted refusals); exact reals; window <= 5, retries <= 3; lenient about the documented off-by-one of the retry count", ref="5/C12"),
 }
 NA = {
 }
